@@ -310,3 +310,71 @@ def run(ctx):
                 "model's handleBlockReceived; monitors check validity of what entered, storage, relay counts, no trace of "
                 "rejected deliveries, and that the store still works at the end. Distinct non-trivial = deliveries" % n_deliv)
     return res
+
+
+def side_branch_probe(ctx, res, classes, prop):
+    """what full validation refuses, a running node refuses wherever it lands: blocks broken in the ways of `classes` delivered
+    by a peer (outside bulk download) on a parent that is NOT the node's head — so that they would not become the head — and then
+    a valid block on top of each that would; also a valid block on a side branch, a refused block, and the side branch's next
+    block (the head must follow the longer branch). Monitors only."""
+    rng = ctx.rng
+    for si in range(ctx.scale(2, 5)):
+        chain.patch(horizon=-1)
+        keys = chain.Keys(rng, 5)
+        tree = chain.Tree(rng, keys)
+        tree.grow(rng.randrange(5, 8), fork_prob=0.0)
+        rn = node.RealNode(tree.cs, tree.blocks)
+        rn.add_peer(active=True)
+        rn.add_peer(active=True)
+        cr = ledger.Crafter(tree)
+        for klass in classes:
+            head = rn.cm.coinstate.current_chain_hash
+            hb = rn.cm.coinstate.block_by_hash[head]
+            if hb.height < 2 or head not in tree.own:
+                break
+            side_parent = hb.previous_block_hash                # a block on it ties with the head: it does not become the head
+            try:
+                c = ledger.make_candidate(cr, klass, side_parent, [])
+            except Exception:
+                c = None
+            if c is None:
+                continue
+            bad, now = c
+            node.CLOCK[0] = max(now, hb.timestamp + 5)
+            rn.deliver_block(0, bad, 0)
+            res.case(("side-branch", si, klass, bad.hash()), nontrivial=True)
+            res.count("broken_block_on_a_side_branch:" + klass)
+            if bad.hash() in rn.cm.coinstate.block_by_hash:
+                res.violations.append({"kind": "a block breaking rule '%s', delivered by a peer on a parent that is not the head, is part "
+                                               "of the node's chain state" % klass, "block": bad.serialize().hex(),
+                                       "tree": [b.serialize().hex() for b in tree.blocks]})
+                break
+            if rn.cm.coinstate.current_chain_hash != head:
+                res.violations.append({"kind": "a refused block on a side branch moved the node's head", "class": klass,
+                                       "block": bad.serialize().hex()})
+                break
+        # a valid side block, a refused block, the side branch's next block: the node follows the longer branch
+        head = rn.cm.coinstate.current_chain_hash
+        hb = rn.cm.coinstate.block_by_hash[head]
+        if hb.height >= 2 and head == tree.cs.current_chain_hash:
+            s1 = tree.extend(hb.previous_block_hash, n_tx=0)
+            node.CLOCK[0] = s1.timestamp + 5
+            rn.deliver_block(0, s1, 0)
+            c = ledger.make_candidate(cr, "ts_equal_parent", head, [])
+            if c is not None:
+                node.CLOCK[0] = max(node.CLOCK[0], c[1])
+                rn.deliver_block(1, c[0], 0)
+            s2 = tree.extend(s1.hash(), n_tx=0)
+            node.CLOCK[0] = s2.timestamp + 5
+            rn.deliver_block(0, s2, 0)
+            res.case(("side-branch-overtakes", si), nontrivial=True)
+            res.count("side_branch_overtakes_after_a_refused_block")
+            if s1.hash() not in rn.cm.coinstate.block_by_hash or rn.cm.coinstate.current_chain_hash != s2.hash():
+                res.violations.append({"kind": "a valid block on a side branch, a refused block on the head, then the side branch's next "
+                                               "block: the node's head is not the first-seen block of greatest height (the side "
+                                               "block is %s, the head has height %d, the delivered branch height %d)"
+                                               % ("stored" if s1.hash() in rn.cm.coinstate.block_by_hash else "LOST",
+                                                  rn.cm.coinstate.head().height, s2.height),
+                                       "blocks": [b.serialize().hex() for b in (s1, c[0] if c else s1, s2)]})
+        rn.close()
+    chain.unpatch()
